@@ -116,17 +116,18 @@ def nested_mesh(level_classes):
     Finer levels: class c is 2(c+1) cells wide, y in 2..5, z in 0..3.
     """
     ny0, nz0 = 4, 2
-    width0 = sum(c + 1 for c in level_classes[0])
-    for lv, cl in enumerate(level_classes[1:], 1):
-        need = sum(2 * (c + 1) for c in cl)
-        if need > width0 * 2 ** lv:
-            raise ValueError("finer level does not fit")
+    # level-0 boxes are m(c+1) cells wide, m the smallest multiplier that makes room for every finer level
+    m = 1
+    while any(sum(2 * (c + 1) for c in cl) > m * sum(c + 1 for c in level_classes[0]) * 2 ** lv
+              for lv, cl in enumerate(level_classes[1:], 1)):
+        m += 1
+    width0 = m * sum(c + 1 for c in level_classes[0])
     levels = []
     for lv, cl in enumerate(level_classes):
         boxes, x = [], 0
         for c in cl:
             if lv == 0:
-                w = c + 1
+                w = m * (c + 1)
                 boxes.append({"lo": [x, 0, 0], "hi": [x + w - 1, ny0 - 1, nz0 - 1]})
             else:
                 w = 2 * (c + 1)
